@@ -222,6 +222,9 @@ func (w *world) gen1(a int, delayed bool) []*genTx {
 	p := r.Intn(100)
 	if delayed && r.Chance(0.7) {
 		p = 50 // a call
+	} else if w.hostile && w.smallUTXO && r.Chance(0.3) {
+		// more confidential spends than the pool hands out per block: they queue across heights
+		p = 83 + r.Intn(17)
 	}
 	one := func(g *genTx) []*genTx { return []*genTx{g} }
 	// Benign chains keep the signer set still while upgrades signed under it are pooled (and the other
@@ -573,7 +576,9 @@ func (w *world) genUpgrade(foreign bool) *genTx {
 	}
 	code := target.code
 	label := "cut/" + target.name + "/same-code"
-	if foreign || r.Chance(0.3) {
+	// Only hostile chains change what a system contract does (benign ones re-install the same code): as long
+	// as compiled modules are cached process-wide by address, such an upgrade is what ends a chain early.
+	if foreign || (w.hostile && r.Chance(0.5)) {
 		other := upgradable[r.Intn(len(upgradable))]
 		if other.name != target.name {
 			code = other.code
